@@ -261,6 +261,32 @@ def main(tier, seed):
             rep.add(f'{tag}.{o["name"]}', o['status'], time=o.get('time'), backend=o.get('backend'), where=o.get('where'), replay=rp,
                     solver_output=o.get('solver_output'), replay_script=script, bounded=True)
         if len(rep.samples) < 5: rep.samples.append(dict(shape=rec['shape'], conf=rec['conf'], hand_rewritten=rec['rewritten'], obligations=[f"{o['name']}:{o['status']}" for o in rec['obligations'][:8]]))
+    # ---- violation_*_type: "change only the class of the raised or warned signal, never the verdict" - for EACH entry point from ITS OWN option:
+    #      the frame obligations of the entry-point agreement proof (C03's worker on the captured tester / raiser / wrapper texts) under
+    #      configurations where the parameter, return and door classes differ in being a Warning
+    try:
+        from props import c03
+        from pyvc import shapes as _sh
+        vshapes = [h for h in _sh.node_shapes()][:: (6 if tier == 'quick' else 2)][:12 if tier == 'quick' else 60]
+        vconfs = ['BeartypeConf(violation_param_type=MyW)', 'BeartypeConf(violation_return_type=MyW)', 'BeartypeConf(violation_door_type=MyW)', 'BeartypeConf(violation_param_type=MyW, violation_door_type=MyW)',
+                  'BeartypeConf(violation_type=MyW, violation_return_type=ValueError)']
+        class MyW(UserWarning): pass
+        _sh.NS['MyW'] = MyW
+        VT = [(h, c) for h in vshapes for c in vconfs]
+        with mp.get_context('fork').Pool(int(os.environ.get('VERIF_PROCS', '16')), maxtasksperchild=20) as pool:
+            vrecs = pool.map(c03._agree_worker, VT, chunksize=2)
+        nv = 0
+        for rec in vrecs:
+            tag = f'C18.violation_type[{rec["shape"]}|{rec["conf"]}]'
+            if rec['error']: rep.error(f'{tag}: {rec["error"]}'); continue
+            if rec.get('ignorable'): continue
+            for o in rec['obligations']:
+                nv += 1; rp = o.get('replay'); script = None
+                if rp and rp.get('reproduced'):
+                    script = f'from props.c03 import entrypoints_agree\nok, d = entrypoints_agree({rec["shape"]!r}, {rec["conf"]!r}, {rp["obj"]!r}, {rp["r"]!r})\nprint("REPRODUCED" if ok else "not reproduced", d)\nsys.exit(1 if ok else 0)\n'
+                rep.add(f'{tag}.{o["name"]}', o['status'], time=o.get('time'), backend=o.get('backend'), where=o.get('where'), replay=rp, solver_output=o.get('solver_output'), replay_script=script, bounded=True)
+        if not nv: rep.error('C18 violation_type: no obligation')
+    except Exception: rep.error('C18 violation_type: ' + traceback.format_exc()[-2000:])
     files = ['beartype/_check/convert/_reduce/redmain.py', 'beartype/_check/convert/_reduce/_redrecurse.py', 'beartype/_conf/_confoverrides.py', 'beartype/_conf/conftest.py',
              'beartype/_check/code/codemain.py', 'beartype/_check/checkmake.py']
     rep.functions = ['beartype/_conf/_confoverrides.py:sanify_conf_kwargs_is_pep484_tower (mode F, PEP 584 dict-union law)'] + [f'{p}@{report.src_hash(p)} (exercised through the real generator; generated text under contract)' for p in files]
